@@ -99,3 +99,20 @@ Print Assumptions C04_settled_from_source.
 Theorem C04_position_relative_from_source : forall e, is_position_relative e = Proofs.Guards.gen_posrel e.
 Proof. exact Proofs.Guards.posrel_from_source. Qed.
 Print Assumptions C04_position_relative_from_source.
+
+(* ---- the order of the passes and the label updates, as the SOURCE has them today (Gen/PassTable.v; Proofs/PassOrder.v) *)
+From BB Require Gen.PassTable Proofs.PassOrder.
+Theorem C04_pass_order_from_source : forall its consts0 labels0 compress,
+  assemble_items its consts0 labels0 compress =
+  obind (Proofs.PassOrder.run Gen.PassTable.pass_order compress
+           {| Proofs.PassOrder.ps_items := its; Proofs.PassOrder.ps_consts := consts0; Proofs.PassOrder.ps_labels := labels0;
+              Proofs.PassOrder.ps_chunks := None |})
+        Proofs.PassOrder.finish.
+Proof. exact Proofs.PassOrder.assemble_is_pass_order. Qed.
+Print Assumptions C04_pass_order_from_source.
+Theorem C04_label_updates_from_source :
+  forallb Proofs.PassOrder.update_ok Gen.PassTable.label_updates = true /\
+  forallb (fun p => existsb (fun u => String.eqb (fst (fst u)) p) Gen.PassTable.label_updates)
+          ["transform_compressible"; "transform_pseudo_instructions"; "resolve_aligns"]%string = true.
+Proof. exact Proofs.PassOrder.label_updates_ok. Qed.
+Print Assumptions C04_label_updates_from_source.
